@@ -67,8 +67,10 @@ def build(case):
     inputs, ctext, lam_params, b = prep
     named = case.get("named", [])
     for nm in named:
-        # keeps the condition falsy and makes it name (and evaluate) the placeholder
-        ctext = GR.canon("len(%s) < 0 or (%s)" % (nm, ctext))
+        if case.get("named_use", "body") == "body":
+            # keeps the condition falsy and makes it name (and evaluate) the placeholder
+            ctext = GR.canon("len(%s) < 0 or (%s)" % (nm, ctext))
+        # else: the lambda only ACCEPTS the placeholder (named in its signature, not used in its body)
     lam_params = sorted(set(lam_params) | set(named))
     text, start, end, scope = RD.module_text(ctext, lam_params, role=case.get("role", "require"), is_async=case["async"],
                                              a_repr="AR" if case.get("limits") else None,
@@ -177,7 +179,7 @@ def check_case(ctx, case, collected=None):
     if exceeds:
         ctx.count("a_value_exceeds_a_limit")
     for nm in named:
-        ctx.count("names:" + nm)
+        ctx.count("names:" + nm + ("(signature only)" if case.get("named_use") == "signature" else ""))
     ctx.case([built["ctext"], case["inputs"], case.get("limits"), named], nt, sample=lambda: {
         "condition": "lambda %s: %s" % (", ".join(built["lam_params"]), built["ctext"]), "limits": case.get("limits"),
         "message": ref.split("\n", 1)[1][:500] if "\n" in ref else ref})
@@ -208,11 +210,12 @@ def st_case(draw):
     names = list(GR.ARGS) + ["Y"]
     perm = draw(st.lists(st.sampled_from(names), min_size=2, max_size=4, unique=True))
     named = [n for n in ("_ARGS", "_KWARGS") if draw(st.integers(0, 5)) == 0]
+    named_use = draw(st.sampled_from(["body", "signature"]))
     # _ARGS/_KWARGS are placeholders of function contracts; the other cases rotate over the three contract kinds
     role = "require" if named else draw(st.sampled_from(["require", "require", "ensure", "invariant"]))
     return {"text": cond["text"], "params": cond["params"], "features": cond["features"], "role": role,
             "async": role != "invariant" and draw(st.integers(0, 4)) == 0, "inputs": draw(GR.st_inputs(long_values=draw(st.booleans()))),
-            "limits": limits, "perm": perm, "named": named, "npos": draw(st.integers(1, 3))}
+            "limits": limits, "perm": perm, "named": named, "named_use": named_use, "npos": draw(st.integers(1, 3))}
 
 
 # ---- worker processes (other hash seeds) ---------------------------------------------------------------------
